@@ -72,19 +72,22 @@ def make_incomplete(schema, pop, rng, frac=.3):
     return gen_p21.Population(schema, insts, pop.header), incomplete
 
 
-def judge(chk, lib, pop, sigma, tagset):
+RELOADS = ('fresh', 'purge', 'clear')   # how the session is emptied before the saved file is read back
+
+
+def judge(chk, lib, pop, sigma, tagset, reload='fresh'):
     # instance comments are stored with the instance and written between the state letter and '#id' in working-session files
     variant = 'cmt_between' if 'instance comments' in tagset else 'compact'
     text = gen_p21.render(pop, variant, random.Random('c16r/%s/%d' % (lib.schema.name, len(pop.insts))))
     files = {'schema.exp': lib.schema.text(), 'in.p21': text, 'states.txt': ','.join('%d:%s' % kv for kv in sorted(sigma.items()))}
     found = []
-    shape = '+'.join(sorted(tagset)) or 'plain'
+    shape = ('+'.join(sorted(tagset)) or 'plain') + ('' if reload == 'fresh' else ', reloaded into the same session (%s)' % reload)
     with p21fam.Scratch('c16') as sc:
         inp = sc.write('in.p21', text)
         spec = ','.join('%d:%s' % kv for kv in sorted(sigma.items()))
         ops = ['read', inp, 'dump', sc.path('b.txt')] + (['states', spec] if spec else []) + \
-              ['writews', sc.path('w1.ws'), 'fresh', 'readws', sc.path('w1.ws'), 'dump', sc.path('d.txt'), 'writews', sc.path('w2.ws'),
-               'fresh', 'readws', sc.path('w2.ws'), 'writews', sc.path('w3.ws')]
+              ['writews', sc.path('w1.ws'), reload, 'readws', sc.path('w1.ws'), 'dump', sc.path('d.txt'), 'writews', sc.path('w2.ws'),
+               reload, 'readws', sc.path('w2.ws'), 'writews', sc.path('w3.ws')]
         r = p21fam.mon(lib, ops, sc.d)
         chk.ev()
         if r.crashed() or r.timed_out:
@@ -139,14 +142,14 @@ def judge(chk, lib, pop, sigma, tagset):
 
 def main(chk):
     quick = chk.tier == 'quick'
-    n_schemas, n_pops, n_sig = (10, 6, 6) if quick else (60, 10, 8)
+    n_schemas, n_pops, n_sig = (10, 6, 6) if quick else (200, 12, 10)
     schemas = p21fam.std_corpus(chk.seed, n_schemas, AVOID_SCHEMA)
     libs = p21fam.report_build_failures(chk, p21fam.build_libs(schemas))
     cases = []
     for li, lib in enumerate(libs):
         for pi in range(n_pops):
             rng = random.Random('c16/%d/%s/%d' % (chk.seed, lib.schema.name, pi))
-            pg = gen_p21.PopGen(lib.schema, rng, avoid=AVOID_POP, strs=['', 'a', "it''s", 'x\\\\y', '#12'])
+            pg = gen_p21.PopGen(lib.schema, rng, avoid=AVOID_POP, strs=['', 'a', "it''s", 'x\\\\y', '#12', 'p; q', ";'';", 'ENDSEC;'])
             pop = pg.population(n_extra=rng.randint(0, 4), with_complex=True)
             if 'unfillable' in pop.tags:
                 continue
@@ -179,12 +182,13 @@ def main(chk):
                             sigma[iid] = 'D'
                     for v in set(sigma.values()):
                         tags.add({'N': 'new', 'I': 'incomplete', 'C': 'complete', 'D': 'deleted'}[v])
-                cases.append((lib, pop, sigma, tags))
+                cases.append((lib, pop, sigma, tags, RELOADS[(pi + si) % len(RELOADS)]))
 
     def work(c):
         return c, judge(chk, *c)
-    for (lib, pop, sigma, tags), found in run.pmap(work, cases):
-        chk.seen(tuple(sorted(tags)), len(pop.insts) > 5)
+    for (lib, pop, sigma, tags, reload), found in run.pmap(work, cases):
+        chk.seen(tuple(sorted(tags)), len(pop.insts) > 5, reload)
+        chk.tag('reload:' + reload)
         for t in tags:
             chk.tag(t)
         for key, what, files in found:
